@@ -196,8 +196,9 @@ def dangling_inputs(p, scope, allowed=()):
 
 
 @job("c16.struct_alone_wiring", ("C16", "C10", "C15"),
-     cfgs=product([dict(model="tube"), dict(model="wingbox")], [dict(relief=False), dict(relief=True)], [dict(fuel=False), dict(fuel=True)], [dict(npm=0), dict(npm=2)]))
-def struct_alone_wiring(env, model, relief, fuel, npm):
+     cfgs=product([dict(model="tube"), dict(model="wingbox")], [dict(relief=False), dict(relief=True)], [dict(fuel=False), dict(fuel=True)], [dict(npm=0), dict(npm=2)])
+     + [dict(model="tube", relief=False, fuel=False, npm=0, radius_cp=True), dict(model="tube", relief=True, fuel=False, npm=2, radius_cp=True)])
+def struct_alone_wiring(env, model, relief, fuel, npm, radius_cp=False):
     """the structures-only group hands every quantity one of its parts computes to the parts that read it: no input of the
     group keeps its declared default while a component of the group computes a variable of that name (element masses for
     the weight relief, nodes, section properties, displacements ...).  Real connection table of the real SpatialBeamAlone for
@@ -208,6 +209,8 @@ def struct_alone_wiring(env, model, relief, fuel, npm):
     s = surface(name="wing", nx=2, ny=3, model=model, struct_weight_relief=relief, distributed_fuel_weight=fuel, n_point_masses=npm)
     if npm == 0:
         s.pop("n_point_masses", None)
+    if radius_cp:
+        s["radius_cp"] = np.array([0.1, 0.2])          # the spar radius as a design variable instead of following the wing thickness
     p = om.Problem(reports=False)
     p.model.add_subsystem("wing", cls("structures.struct_groups.SpatialBeamAlone")(surface=s))
     with warnings.catch_warnings():
